@@ -32,6 +32,8 @@ var (
 	flagRes   = flag.String("res", "", "internal: child result file (one JSON object per line)")
 	flagFrom  = flag.Int("from", 0, "internal: first input index to run")
 	flagDump  = flag.Bool("dump", false, "debug: print the observations as JSON and stop")
+	flagGen   = flag.String("gen", "", "regenerate a model table by running the code: startargs | hookfail")
+	flagGenO  = flag.String("genout", "", "output .v file of -gen")
 )
 
 func buildDir() string {
@@ -205,6 +207,10 @@ func main() {
 	o := gen.ParseFlags()
 	if *flagChild != "" {
 		childMain(*flagChild)
+		return
+	}
+	if *flagGen != "" {
+		genMode(*flagGen, *flagGenO)
 		return
 	}
 	prop := *flagProp
